@@ -44,9 +44,8 @@ enum { IT_INDEX = 0, IT_DATA = 1, IT_EMPTY = 2, IT_META = 3, IT_N = 4 };
 struct ldb_rfile_s { int dummy; };
 struct ldb_lru_s { int dummy; };
 struct ldb_entry_s { int dummy; };
-struct ldb_bloom_s;
-
 ldb_rfile_t g_the_rfile;
+ldb_bloom_t g_policy_obj;
 ldb_lru_t g_the_cache;
 ldb_entry_t g_entry_hit, g_entry_ins;       /* what lookup (hit) / insert hand out            */
 ldb_block_t g_blk_index;                     /* the open table's index block (get/blockreader)  */
@@ -77,33 +76,37 @@ struct tbl_in {                              /* chosen by the harness           
   char *name; size_t name_len;               /* "filter." + policy name as ldb_bloom_name yields */
   int name_ok;                               /* ldb_bloom_name succeeds                          */
   int pread_mapped;                          /* footer pread answers from its own memory         */
-  const uint8_t *map_base;
+  uint8_t *footer;                           /* the (up to) 48 bytes the file holds at size-48   */
 } IN;
 
 struct rb_rec { const ldb_readopt_t *opt; int verify, fill; const void *snapshot; uint64_t off, size; int rc; int cachable, heap; };
 
-struct tbl_rec {                             /* written by the stubs                             */
-  int created[IT_N], destroyed[IT_N], seeks[IT_N];
+struct tbl_brec {                            /* written by the stubs the block reader reaches    */
+  int created[IT_N];
   const ldb_block_t *block[IT_N]; const ldb_comparator_t *cmp[IT_N];
   int empty_status;                          /* status the error iterator was created with       */
+  /* ldb_read_block */
+  int rb_calls; struct rb_rec rb[3];
+  /* ldb_block_create */
+  int bc_calls; int bc_of[3];                /* bc_of[k]: a block was created from read k        */
+  /* block cache */
+  int lk_calls; size_t lk_n; uint8_t lk_key[16];
+  int ins_calls; size_t ins_n; uint8_t ins_key[16]; const void *ins_value; size_t ins_charge;
+  void (*ins_deleter)(const ldb_slice_t *, void *);
+  /* cleanup registered on the returned iterator */
+  int cl_calls; const ldb_iter_t *cl_iter; ldb_cleanup_f cl_func; void *cl_a1, *cl_a2;
+} B;
+
+struct tbl_rec {                             /* written by the other stubs                       */
+  int destroyed[IT_N], seeks[IT_N];
   unsigned long clock;                       /* order of events                                  */
   unsigned long t_saver, t_destroy[IT_N];
   /* filter reader */
   int fm_calls, fm_ret; const ldb_filter_t *fm_filter; uint64_t fm_off; const ldb_slice_t *fm_key;
   /* saver callback */
   int sv_calls; void *sv_arg; const uint8_t *sv_kp; size_t sv_kn; const uint8_t *sv_vp; size_t sv_vn;
-  /* ldb_read_block */
-  int rb_calls; struct rb_rec rb[3];
-  /* ldb_block_create / destroy */
-  int bc_calls; int bc_of[3];                /* bc_of[k]: a block was created from read k        */
-  int bd_calls; const ldb_block_t *bd_block;
-  /* block cache */
-  int lk_calls; size_t lk_n; uint8_t lk_key[16];
-  int ins_calls; size_t ins_n; uint8_t ins_key[16]; const void *ins_value; size_t ins_charge;
-  void (*ins_deleter)(const ldb_slice_t *, void *);
+  int bd_calls; const ldb_block_t *bd_block; unsigned long t_bd;
   int id_calls;
-  /* cleanup registered on the returned iterator */
-  int cl_calls; const ldb_iter_t *cl_iter; ldb_cleanup_f cl_func; void *cl_a1, *cl_a2;
   /* footer pread */
   int pr_calls, pr_rc; size_t pr_count; uint64_t pr_off; const uint8_t *pr_data; size_t pr_size;
   /* meta */
@@ -117,7 +120,7 @@ static unsigned long tick(void) { __CPROVER_assume(R.clock < (1ul << 40)); retur
 static int gi_index(const void *p) {
   int i = (int)((const int *)p - g_tags);
   __CPROVER_assert(__CPROVER_same_object(p, g_tags) && i >= 0 && i < IT_N && p == (const void *)&g_tags[i], "iterator op: receiver is an iterator the environment handed out");
-  __CPROVER_assert(R.created[i] && !R.destroyed[i], "iterator op: the iterator is alive (created, not yet destroyed)");
+  __CPROVER_assert(B.created[i] && !R.destroyed[i], "iterator op: the iterator is alive (created, not yet destroyed)");
   return i;
 }
 #define GI_VALID(i) ((i) != IT_EMPTY && R.seeks[i] > 0 && IN.valid[i] != 0)
@@ -148,7 +151,7 @@ static ldb_slice_t gi_value(const void *p) {
 /* a block iterator reports an error only once it has been positioned; the error iterator always */
 static int gi_status(const void *p) {
   int i = gi_index(p);
-  if (i == IT_EMPTY) return R.empty_status;
+  if (i == IT_EMPTY) return B.empty_status;
   return R.seeks[i] > 0 ? IN.status[i] : LDB_OK;
 }
 static const ldb_itertbl_t gi_table = { gi_clear, gi_valid, gi_nostep, gi_nostep, gi_seek, gi_nostep, gi_nostep, gi_key, gi_value, gi_status };
@@ -156,23 +159,23 @@ static const ldb_itertbl_t gi_table = { gi_clear, gi_valid, gi_nostep, gi_nostep
 ldb_iter_t *ldb_blockiter_create(const ldb_block_t *block, const ldb_comparator_t *cmp) {
   int i = block == &g_blk_index ? IT_INDEX : block == &g_blk[1] ? IT_META : IT_DATA;
   __CPROVER_assert(block == &g_blk_index || block == &g_blk_cached || block == &g_blk[0] || block == &g_blk[1], "blockiter_create: over a live block (index block, cached block, or a block just created)");
-  __CPROVER_assert(!R.created[i], "blockiter_create: one iterator per block per call");
-  R.created[i] = 1; R.block[i] = block; R.cmp[i] = cmp;
+  __CPROVER_assert(!B.created[i], "blockiter_create: one iterator per block per call");
+  B.created[i] = 1; B.block[i] = block; B.cmp[i] = cmp;
   return &GI[i];
 }
 ldb_iter_t *ldb_emptyiter_create(int status) {
-  __CPROVER_assert(!R.created[IT_EMPTY], "emptyiter_create: at most one error iterator per call");
-  R.created[IT_EMPTY] = 1; R.empty_status = status;
+  __CPROVER_assert(!B.created[IT_EMPTY], "emptyiter_create: at most one error iterator per call");
+  B.created[IT_EMPTY] = 1; B.empty_status = status;
   return &GI[IT_EMPTY];
 }
 void ldb_iter_destroy(ldb_iter_t *iter) {
   int i = (int)(iter - GI);
   __CPROVER_assert(__CPROVER_same_object(iter, GI) && i >= 0 && i < IT_N && iter == &GI[i], "iter_destroy: an iterator the environment handed out");
-  __CPROVER_assert(R.created[i] && !R.destroyed[i], "iter_destroy: alive, destroyed once");
+  __CPROVER_assert(B.created[i] && !R.destroyed[i], "iter_destroy: alive, destroyed once");
   R.destroyed[i] = 1; R.t_destroy[i] = tick();
 }
 void ldb_iter_register_cleanup(ldb_iter_t *iter, ldb_cleanup_f func, void *arg1, void *arg2) {
-  R.cl_calls++; R.cl_iter = iter; R.cl_func = func; R.cl_a1 = arg1; R.cl_a2 = arg2;
+  B.cl_calls++; B.cl_iter = iter; B.cl_func = func; B.cl_a1 = arg1; B.cl_a2 = arg2;
 }
 ldb_iter_t *ldb_twoiter_create(ldb_iter_t *index_iter, ldb_blockfunc_f block_function, void *arg, const ldb_readopt_t *options) {
   __CPROVER_assert(0, "twoiter_create: not part of these units");
@@ -194,52 +197,52 @@ void ldb_filter_destroy(ldb_filter_t *fr) { (void)fr; __CPROVER_assert(0, "filte
 
 /* the saver callback of the caller */
 static void stub_saver(void *arg, const ldb_slice_t *k, const ldb_slice_t *v) {
-  __CPROVER_assert(R.created[IT_DATA] && !R.destroyed[IT_DATA], "saver: invoked while the data block iterator (owner of the key/value bytes) is alive");
+  __CPROVER_assert(B.created[IT_DATA] && !R.destroyed[IT_DATA], "saver: invoked while the data block iterator (owner of the key/value bytes) is alive");
   R.sv_calls++; R.sv_arg = arg; R.sv_kp = k->data; R.sv_kn = k->size; R.sv_vp = v->data; R.sv_vn = v->size;
   R.t_saver = tick();
 }
 
 /* ------------------------------------------------------------ block reads */
 int ldb_read_block(ldb_contents_t *result, ldb_rfile_t *file, const ldb_readopt_t *options, const ldb_handle_t *handle) {
-  int k = R.rb_calls, rc = nondet_int();
+  int k = B.rb_calls, rc = nondet_int();
   __CPROVER_assert(file == &g_the_rfile, "read_block: reads the table's file");
   __CPROVER_assert(k < 3, "read_block: at most three block reads (index, metaindex, filter) per call");
   __CPROVER_assume(k < 3);
-  R.rb[k].opt = options; R.rb[k].verify = options->verify_checksums; R.rb[k].fill = options->fill_cache; R.rb[k].snapshot = options->snapshot;
-  R.rb[k].off = handle->offset; R.rb[k].size = handle->size;
-  R.rb_calls++;
+  B.rb[k].opt = options; B.rb[k].verify = options->verify_checksums; B.rb[k].fill = options->fill_cache; B.rb[k].snapshot = options->snapshot;
+  B.rb[k].off = handle->offset; B.rb[k].size = handle->size;
+  B.rb_calls++;
   if (rc != LDB_OK) {
     __CPROVER_assume((rc >= LDB_MINERR && rc <= LDB_MAXERR) || (rc > 0 && rc < 200));
-    R.rb[k].rc = rc; R.rb[k].cachable = 0; R.rb[k].heap = 0;
+    B.rb[k].rc = rc; B.rb[k].cachable = 0; B.rb[k].heap = 0;
     /* tbl.read: any failure leaves empty contents, nothing for the caller to free */
     result->data.data = NULL; result->data.size = 0; result->data.alloc = 0; result->cachable = 0; result->heap_allocated = 0;
     return rc;
   }
-  R.rb[k].rc = LDB_OK;
-  R.rb[k].cachable = nondet_int() ? 1 : 0; R.rb[k].heap = nondet_int() ? 1 : 0;
+  B.rb[k].rc = LDB_OK;
+  B.rb[k].cachable = nondet_int() ? 1 : 0; B.rb[k].heap = nondet_int() ? 1 : 0;
   result->data.data = IN.rb_data[k]; result->data.size = IN.rb_n[k]; result->data.alloc = 0;
-  result->cachable = R.rb[k].cachable; result->heap_allocated = R.rb[k].heap;
+  result->cachable = B.rb[k].cachable; result->heap_allocated = B.rb[k].heap;
   return LDB_OK;
 }
 ldb_block_t *ldb_block_create(const ldb_contents_t *contents) {
   int k = contents->data.data == IN.rb_data[0] ? 0 : contents->data.data == IN.rb_data[1] ? 1 : 2;
-  __CPROVER_assert(R.rb_calls > k && R.rb[k].rc == LDB_OK && contents->data.data == IN.rb_data[k] && contents->data.size == IN.rb_n[k] &&
-                   contents->cachable == R.rb[k].cachable && contents->heap_allocated == R.rb[k].heap,
+  __CPROVER_assert(B.rb_calls > k && B.rb[k].rc == LDB_OK && contents->data.data == IN.rb_data[k] && contents->data.size == IN.rb_n[k] &&
+                   contents->cachable == B.rb[k].cachable && contents->heap_allocated == B.rb[k].heap,
                    "block_create: from the unmodified contents of a successful read_block");
-  __CPROVER_assert(!R.bc_of[k], "block_create: one block per read");
-  R.bc_calls++; R.bc_of[k] = 1;
+  __CPROVER_assert(!B.bc_of[k], "block_create: one block per read");
+  B.bc_calls++; B.bc_of[k] = 1;
   g_blk[k].data = contents->data.data; g_blk[k].size = contents->data.size; g_blk[k].owned = contents->heap_allocated;
   return &g_blk[k];
 }
-void ldb_block_destroy(ldb_block_t *block) { R.bd_calls++; R.bd_block = block; }
+void ldb_block_destroy(ldb_block_t *block) { R.bd_calls++; R.bd_block = block; R.t_bd = tick(); }
 
 /* ------------------------------------------------------------ block cache */
 static void copy16(uint8_t *z, const uint8_t *x) { int i; for (i = 0; i < 16; i++) z[i] = x[i]; }
 ldb_entry_t *ldb_lru_lookup(ldb_lru_t *lru, const ldb_slice_t *key) {
   __CPROVER_assert(lru == &g_the_cache, "lru_lookup: in the table's block cache");
-  __CPROVER_assert(R.rb_calls == 0, "lru_lookup: the cache is asked BEFORE the block is read");
-  R.lk_calls++; R.lk_n = key->size;
-  if (key->size == 16) copy16(R.lk_key, key->data);
+  __CPROVER_assert(B.rb_calls == 0, "lru_lookup: the cache is asked BEFORE the block is read");
+  B.lk_calls++; B.lk_n = key->size;
+  if (key->size == 16) copy16(B.lk_key, key->data);
   return IN.lookup_hit ? &g_entry_hit : NULL;
 }
 void *ldb_lru_value(ldb_entry_t *handle) {
@@ -248,8 +251,8 @@ void *ldb_lru_value(ldb_entry_t *handle) {
 }
 ldb_entry_t *ldb_lru_insert(ldb_lru_t *lru, const ldb_slice_t *key, void *value, size_t charge, void (*deleter)(const ldb_slice_t *key, void *value)) {
   __CPROVER_assert(lru == &g_the_cache, "lru_insert: into the table's block cache");
-  R.ins_calls++; R.ins_n = key->size; R.ins_value = value; R.ins_charge = charge; R.ins_deleter = deleter;
-  if (key->size == 16) copy16(R.ins_key, key->data);
+  B.ins_calls++; B.ins_n = key->size; B.ins_value = value; B.ins_charge = charge; B.ins_deleter = deleter;
+  if (key->size == 16) copy16(B.ins_key, key->data);
   return &g_entry_ins;
 }
 void ldb_lru_release(ldb_lru_t *lru, ldb_entry_t *handle) { (void)lru; (void)handle; __CPROVER_assert(0, "lru_release: only reached through iterator cleanup (not run in these units)"); }
@@ -270,10 +273,12 @@ int ldb_rfile_pread(ldb_rfile_t *file, ldb_slice_t *result, void *buf, size_t co
     __CPROVER_assume((rc >= LDB_MINERR && rc <= LDB_MAXERR) || (rc > 0 && rc < 200));
     return rc;
   }
-  /* any size up to count (short read at end of file), arbitrary bytes, in the scratch buffer or the file's own mapping */
+  /* any size up to count (short read at end of file); the bytes are IN.footer[0 .. size), delivered in the
+     scratch buffer or in the file's own memory (mapped file) */
   R.pr_size = nondet_size();
   __CPROVER_assume(R.pr_size <= count);
-  R.pr_data = IN.pread_mapped ? IN.map_base : (const uint8_t *)buf;
+  if (count == 48) { int i; for (i = 0; i < 48; i++) ((uint8_t *)buf)[i] = IN.footer[i]; }
+  R.pr_data = IN.pread_mapped ? IN.footer : (const uint8_t *)buf;
   result->data = (uint8_t *)R.pr_data; result->size = R.pr_size; result->alloc = 0;
   return LDB_OK;
 }
@@ -306,50 +311,51 @@ int ldb_slice_equal(const ldb_slice_t *x, const ldb_slice_t *y) {
 #define BR_CACHE (BR_TABLE->options.block_cache != NULL)
 #define BR_HIT (BR_H && BR_CACHE && IN.lookup_hit)
 #define BR_READS (BR_H && !BR_HIT)
-#define BR_READ_OK (BR_READS && R.rb[0].rc == LDB_OK)
-#define BR_INSERTS (BR_READ_OK && BR_CACHE && R.rb[0].cachable && options->fill_cache)
+#define BR_READ_OK (BR_READS && B.rb[0].rc == LDB_OK)
+#define BR_INSERTS (BR_READ_OK && BR_CACHE && B.rb[0].cachable && options->fill_cache)
 #define KEY_IS(kb, id, off) (IS_LE64(kb, id) && IS_LE64((kb) + 8, off))
-#define FRESH_IT(i) (R.created[i] == 1 && R.seeks[i] == 0 && R.destroyed[i] == 0)
+#define FRESH_IT(i) (B.created[i] == 1 && R.seeks[i] == 0 && R.destroyed[i] == 0)
 
 ldb_iter_t *c_table_blockreader(void *arg, const ldb_readopt_t *options, const ldb_slice_t *index_value)
 __CPROVER_requires(arg == (void *)IN.table && __CPROVER_r_ok(BR_TABLE, sizeof(ldb_table_t)) && options == IN.ropt && __CPROVER_r_ok(options, sizeof(*options)))
 __CPROVER_requires(__CPROVER_r_ok(index_value, sizeof(*index_value)) && index_value->data == IN.ixval && index_value->size == IN.ixval_n && __CPROVER_r_ok(index_value->data, index_value->size))
 __CPROVER_requires(BR_TABLE->file == &g_the_rfile && (BR_TABLE->options.block_cache == NULL || BR_TABLE->options.block_cache == &g_the_cache))
-__CPROVER_requires(!R.created[IT_DATA] && !R.created[IT_EMPTY] && R.rb_calls == 0 && R.bc_calls == 0 && !R.bc_of[0] && R.lk_calls == 0 && R.ins_calls == 0 && R.cl_calls == 0)
+__CPROVER_requires(!B.created[IT_DATA] && !B.created[IT_EMPTY] && B.rb_calls == 0 && B.bc_calls == 0 && !B.bc_of[0] && B.lk_calls == 0 && B.ins_calls == 0 && B.cl_calls == 0)
 __CPROVER_requires(R.seeks[IT_DATA] == 0 && R.seeks[IT_EMPTY] == 0 && !R.destroyed[IT_DATA] && !R.destroyed[IT_EMPTY])
-__CPROVER_assigns(R, __CPROVER_object_whole(g_blk))
+__CPROVER_assigns(B, __CPROVER_object_whole(g_blk))
+/* keeps the points-to set of the returned iterator across a replaced call */
+__CPROVER_ensures(__CPROVER_pointer_in_range_dfcc(&GI[IT_DATA], __CPROVER_return_value, &GI[IT_EMPTY]))
 /* malformed handle: an error iterator carrying LDB_CORRUPTION; nothing looked up, nothing read */
-__CPROVER_ensures(!BR_H ==> (__CPROVER_return_value == &GI[IT_EMPTY] && R.empty_status == LDB_CORRUPTION && R.lk_calls == 0 && R.rb_calls == 0))
+__CPROVER_ensures(!BR_H ==> (__CPROVER_return_value == &GI[IT_EMPTY] && B.empty_status == LDB_CORRUPTION && B.lk_calls == 0 && B.rb_calls == 0))
 /* the block cache is asked first, under the key LE64(cache_id) ‖ LE64(handle.offset) */
-__CPROVER_ensures(R.lk_calls == ((BR_H && BR_CACHE) ? 1 : 0))
-__CPROVER_ensures(R.lk_calls == 1 ==> (R.lk_n == 16 && KEY_IS(R.lk_key, BR_TABLE->cache_id, BR_OFF)))
+__CPROVER_ensures(B.lk_calls == ((BR_H && BR_CACHE) ? 1 : 0))
+__CPROVER_ensures(B.lk_calls == 1 ==> (B.lk_n == 16 && KEY_IS(B.lk_key, BR_TABLE->cache_id, BR_OFF)))
 /* the file is read iff the handle is good and the cache did not have the block: exactly the handle's extent, with the caller's read options */
-__CPROVER_ensures(R.rb_calls == (BR_READS ? 1 : 0))
-__CPROVER_ensures(BR_READS ==> (R.rb[0].off == BR_OFF && R.rb[0].size == BR_SIZE && R.rb[0].opt == options &&
-                                R.rb[0].verify == options->verify_checksums && R.rb[0].fill == options->fill_cache))
+__CPROVER_ensures(B.rb_calls == (BR_READS ? 1 : 0))
+__CPROVER_ensures(BR_READS ==> (B.rb[0].off == BR_OFF && B.rb[0].size == BR_SIZE && B.rb[0].opt == options &&
+                                B.rb[0].verify == options->verify_checksums && B.rb[0].fill == options->fill_cache))
 /* read error: an error iterator carrying exactly that status; nothing cached */
-__CPROVER_ensures(BR_READS && R.rb[0].rc != LDB_OK ==> (__CPROVER_return_value == &GI[IT_EMPTY] && R.empty_status == R.rb[0].rc && R.ins_calls == 0 && R.bc_calls == 0))
+__CPROVER_ensures(BR_READS && B.rb[0].rc != LDB_OK ==> (__CPROVER_return_value == &GI[IT_EMPTY] && B.empty_status == B.rb[0].rc && B.ins_calls == 0 && B.bc_calls == 0))
 /* the error iterator never reports OK, and is only used for errors */
-__CPROVER_ensures(R.created[IT_EMPTY] ==> (R.empty_status != LDB_OK && __CPROVER_return_value == &GI[IT_EMPTY]))
+__CPROVER_ensures(B.created[IT_EMPTY] ==> (B.empty_status != LDB_OK && __CPROVER_return_value == &GI[IT_EMPTY]))
 __CPROVER_ensures(__CPROVER_return_value == &GI[IT_EMPTY] || __CPROVER_return_value == &GI[IT_DATA])
-__CPROVER_ensures(__CPROVER_return_value == &GI[IT_EMPTY] ==> (FRESH_IT(IT_EMPTY) && !R.created[IT_DATA] && R.cl_calls == 0))
+__CPROVER_ensures(__CPROVER_return_value == &GI[IT_EMPTY] ==> (FRESH_IT(IT_EMPTY) && !B.created[IT_DATA] && B.cl_calls == 0))
 /* otherwise: an iterator over the block, ordered by the table's comparator */
-__CPROVER_ensures(__CPROVER_return_value == &GI[IT_DATA] ==> (FRESH_IT(IT_DATA) && !R.created[IT_EMPTY] && R.cmp[IT_DATA] == BR_TABLE->options.comparator))
-__CPROVER_ensures(BR_HIT ==> (__CPROVER_return_value == &GI[IT_DATA] && R.block[IT_DATA] == &g_blk_cached && R.bc_calls == 0 && R.ins_calls == 0))
-__CPROVER_ensures(BR_READ_OK ==> (__CPROVER_return_value == &GI[IT_DATA] && R.block[IT_DATA] == &g_blk[0] && R.bc_calls == 1 && R.bc_of[0]))
+__CPROVER_ensures(__CPROVER_return_value == &GI[IT_DATA] ==> (FRESH_IT(IT_DATA) && !B.created[IT_EMPTY] && B.cmp[IT_DATA] == BR_TABLE->options.comparator))
+__CPROVER_ensures(BR_HIT ==> (__CPROVER_return_value == &GI[IT_DATA] && B.block[IT_DATA] == &g_blk_cached && B.bc_calls == 0 && B.ins_calls == 0))
+__CPROVER_ensures(BR_READ_OK ==> (__CPROVER_return_value == &GI[IT_DATA] && B.block[IT_DATA] == &g_blk[0] && B.bc_calls == 1 && B.bc_of[0]))
 /* inserted into the cache iff cachable and fill_cache, under the same key, charged with the block size */
-__CPROVER_ensures(R.ins_calls == (BR_INSERTS ? 1 : 0))
-__CPROVER_ensures(BR_INSERTS ==> (R.ins_n == 16 && KEY_IS(R.ins_key, BR_TABLE->cache_id, BR_OFF) && R.ins_value == (const void *)&g_blk[0] &&
-                                  R.ins_charge == IN.rb_n[0] && R.ins_deleter == delete_cached_block))
+__CPROVER_ensures(B.ins_calls == (BR_INSERTS ? 1 : 0))
+__CPROVER_ensures(BR_INSERTS ==> (B.ins_n == 16 && KEY_IS(B.ins_key, BR_TABLE->cache_id, BR_OFF) && B.ins_value == (const void *)&g_blk[0] &&
+                                  B.ins_charge == IN.rb_n[0] && B.ins_deleter == delete_cached_block))
 /* ownership: exactly one cleanup on the iterator - release the cache handle, or delete the private block */
-__CPROVER_ensures(__CPROVER_return_value == &GI[IT_DATA] ==> (R.cl_calls == 1 && R.cl_iter == &GI[IT_DATA]))
-__CPROVER_ensures(BR_HIT ==> (R.cl_func == release_block && R.cl_a1 == (void *)&g_the_cache && R.cl_a2 == (void *)&g_entry_hit))
-__CPROVER_ensures(BR_INSERTS ==> (R.cl_func == release_block && R.cl_a1 == (void *)&g_the_cache && R.cl_a2 == (void *)&g_entry_ins))
-__CPROVER_ensures(BR_READ_OK && !BR_INSERTS ==> (R.cl_func == delete_block && R.cl_a1 == (void *)&g_blk[0]))
-/* nothing else happens */
-__CPROVER_ensures(R.fm_calls == __CPROVER_old(R.fm_calls) && R.sv_calls == __CPROVER_old(R.sv_calls) && R.bd_calls == __CPROVER_old(R.bd_calls) &&
-                  R.created[IT_INDEX] == __CPROVER_old(R.created[IT_INDEX]) && R.seeks[IT_INDEX] == __CPROVER_old(R.seeks[IT_INDEX]) &&
-                  R.destroyed[IT_INDEX] == __CPROVER_old(R.destroyed[IT_INDEX]) && R.clock == __CPROVER_old(R.clock))
+__CPROVER_ensures(__CPROVER_return_value == &GI[IT_DATA] ==> (B.cl_calls == 1 && B.cl_iter == &GI[IT_DATA]))
+__CPROVER_ensures(BR_HIT ==> (B.cl_func == release_block && B.cl_a1 == (void *)&g_the_cache && B.cl_a2 == (void *)&g_entry_hit))
+__CPROVER_ensures(BR_INSERTS ==> (B.cl_func == release_block && B.cl_a1 == (void *)&g_the_cache && B.cl_a2 == (void *)&g_entry_ins))
+__CPROVER_ensures(BR_READ_OK && !BR_INSERTS ==> (B.cl_func == delete_block && B.cl_a1 == (void *)&g_blk[0]))
+/* the index iterator's record is not touched */
+__CPROVER_ensures(B.created[IT_INDEX] == __CPROVER_old(B.created[IT_INDEX]) && B.block[IT_INDEX] == __CPROVER_old(B.block[IT_INDEX]) && B.cmp[IT_INDEX] == __CPROVER_old(B.cmp[IT_INDEX]) &&
+                  B.created[IT_META] == __CPROVER_old(B.created[IT_META]))
 ;
 
 /* ================================================================== tbl.get
@@ -360,7 +366,7 @@ __CPROVER_ensures(R.fm_calls == __CPROVER_old(R.fm_calls) && R.sv_calls == __CPR
 #define GET_FILTERED (GET_V && table->filter != NULL && GET_H)
 #define GET_MISS (GET_FILTERED && !R.fm_ret)
 #define GET_READ (GET_V && !GET_MISS)
-#define GET_BLOCK_STATUS (R.created[IT_DATA] ? IN.status[IT_DATA] : R.empty_status)
+#define GET_BLOCK_STATUS (B.created[IT_DATA] ? IN.status[IT_DATA] : B.empty_status)
 
 int c_table_internal_get(ldb_table_t *table, const ldb_readopt_t *options, const ldb_slice_t *k, void *arg,
                          void (*handle_result)(void *, const ldb_slice_t *, const ldb_slice_t *))
@@ -368,44 +374,133 @@ __CPROVER_requires(table == IN.table && __CPROVER_r_ok(table, sizeof(*table)) &&
 __CPROVER_requires(k == IN.key && __CPROVER_r_ok(k, sizeof(*k)) && arg == IN.arg && handle_result == stub_saver)
 __CPROVER_requires(table->index_block == &g_blk_index && table->file == &g_the_rfile && (table->options.block_cache == NULL || table->options.block_cache == &g_the_cache))
 __CPROVER_requires(__CPROVER_r_ok(IN.ixval, IN.ixval_n) && IN.vp[IT_INDEX] == IN.ixval && IN.vn[IT_INDEX] == IN.ixval_n)
-__CPROVER_requires(!R.created[IT_INDEX] && !R.created[IT_DATA] && !R.created[IT_EMPTY] && R.rb_calls == 0 && R.bc_calls == 0 && !R.bc_of[0] && R.lk_calls == 0 && R.ins_calls == 0 && R.cl_calls == 0)
+__CPROVER_requires(!B.created[IT_INDEX] && !B.created[IT_DATA] && !B.created[IT_EMPTY] && B.rb_calls == 0 && B.bc_calls == 0 && !B.bc_of[0] && B.lk_calls == 0 && B.ins_calls == 0 && B.cl_calls == 0)
 __CPROVER_requires(R.seeks[IT_INDEX] == 0 && R.seeks[IT_DATA] == 0 && R.seeks[IT_EMPTY] == 0 && !R.destroyed[IT_INDEX] && !R.destroyed[IT_DATA] && !R.destroyed[IT_EMPTY])
 __CPROVER_requires(R.fm_calls == 0 && R.sv_calls == 0 && R.clock == 0)
-__CPROVER_assigns(R, __CPROVER_object_whole(g_blk))
+__CPROVER_assigns(R, B, __CPROVER_object_whole(g_blk))
 /* the index block is searched for the key, with the table's comparator; the iterator is released */
-__CPROVER_ensures(R.created[IT_INDEX] == 1 && R.block[IT_INDEX] == table->index_block && R.cmp[IT_INDEX] == table->options.comparator &&
+__CPROVER_ensures(B.created[IT_INDEX] == 1 && B.block[IT_INDEX] == table->index_block && B.cmp[IT_INDEX] == table->options.comparator &&
                   R.seeks[IT_INDEX] == 1 && R.destroyed[IT_INDEX] == 1)
 /* the filter (if any) is consulted with the offset of the candidate block's handle and the caller's full key */
 __CPROVER_ensures(R.fm_calls == (GET_FILTERED ? 1 : 0))
 __CPROVER_ensures(GET_FILTERED ==> (R.fm_filter == table->filter && R.fm_off == spec_handle_offset(IN.ixval, IN.ixval_n) && R.fm_key == k))
 /* key beyond the last block, or the filter says no: not found - no block is looked up or read, the callback is not invoked */
-__CPROVER_ensures(!GET_READ ==> (!R.created[IT_DATA] && !R.created[IT_EMPTY] && R.rb_calls == 0 && R.lk_calls == 0 && R.ins_calls == 0 && R.sv_calls == 0 &&
+__CPROVER_ensures(!GET_READ ==> (!B.created[IT_DATA] && !B.created[IT_EMPTY] && B.rb_calls == 0 && B.lk_calls == 0 && B.ins_calls == 0 && R.sv_calls == 0 &&
                                  __CPROVER_return_value == IN.status[IT_INDEX]))
 /* otherwise the candidate block is opened through the block reader, searched for the key, and released */
-__CPROVER_ensures(GET_READ ==> (R.created[IT_DATA] + R.created[IT_EMPTY] == 1))
-__CPROVER_ensures(R.created[IT_DATA] ==> (R.seeks[IT_DATA] == 1 && R.destroyed[IT_DATA] == 1))
-__CPROVER_ensures(R.created[IT_EMPTY] ==> (R.destroyed[IT_EMPTY] == 1 && R.sv_calls == 0))
+__CPROVER_ensures(GET_READ ==> (B.created[IT_DATA] + B.created[IT_EMPTY] == 1))
+__CPROVER_ensures(B.created[IT_DATA] ==> (R.seeks[IT_DATA] == 1 && R.destroyed[IT_DATA] == 1))
+__CPROVER_ensures(B.created[IT_EMPTY] ==> (R.destroyed[IT_EMPTY] == 1 && R.sv_calls == 0))
 /* the callback gets exactly the entry the block seek landed on (first entry >= key), once, iff there is one */
-__CPROVER_ensures(R.created[IT_DATA] ==> R.sv_calls == (IN.valid[IT_DATA] ? 1 : 0))
+__CPROVER_ensures(B.created[IT_DATA] ==> R.sv_calls == (IN.valid[IT_DATA] ? 1 : 0))
 __CPROVER_ensures(R.sv_calls == 1 ==> (R.sv_arg == arg && R.sv_kp == IN.kp[IT_DATA] && R.sv_kn == IN.kn[IT_DATA] && R.sv_vp == IN.vp[IT_DATA] && R.sv_vn == IN.vn[IT_DATA]))
 /* status: the block iterator's error (read error, corruption) first, else the index iterator's */
 __CPROVER_ensures(GET_READ ==> __CPROVER_return_value == (GET_BLOCK_STATUS != LDB_OK ? GET_BLOCK_STATUS : IN.status[IT_INDEX]))
 /* a block that could not be read is never reported as a clean miss */
-__CPROVER_ensures(R.created[IT_EMPTY] ==> __CPROVER_return_value != LDB_OK)
+__CPROVER_ensures(B.created[IT_EMPTY] ==> __CPROVER_return_value != LDB_OK)
+;
+
+/* ================================================================= tbl.open
+ * LevelDB Table::Open + ReadMeta + ReadFilter.
+ */
+#define OP_T (*table)
+#define OP_PARANOID (options->paranoid_checks != 0 ? 1 : 0)
+#define OP_PREAD_OK (R.pr_calls == 1 && R.pr_rc == LDB_OK)
+#define OP_INDEX_READ (B.rb_calls >= 1)                       /* the footer was accepted             */
+#define OP_OPENED (OP_INDEX_READ && B.rb[0].rc == LDB_OK)     /* the table is open                   */
+#define OP_META_READ (B.rb_calls >= 2)
+#define OP_META_OK (OP_META_READ && B.rb[1].rc == LDB_OK)
+#define OP_FOUND (OP_META_OK && IN.valid[IT_META] != 0 && R.eq_ret != 0)  /* metaindex has the entry "filter.<policy>" */
+#define OP_FILTER_READ (B.rb_calls == 3)
+#define OP_FILTER_OK (OP_FILTER_READ && B.rb[2].rc == LDB_OK)
+
+int c_table_open(const ldb_dbopt_t *options, ldb_rfile_t *file, uint64_t size, ldb_table_t **table)
+__CPROVER_requires(__CPROVER_r_ok(options, sizeof(*options)) && file == &g_the_rfile && __CPROVER_w_ok(table, sizeof(*table)))
+__CPROVER_requires(options->block_cache == NULL || options->block_cache == &g_the_cache)
+__CPROVER_requires(options->filter_policy == NULL || options->filter_policy == &g_policy_obj)
+__CPROVER_requires(__CPROVER_r_ok(IN.footer, 48) && __CPROVER_r_ok(IN.vp[IT_META], IN.vn[IT_META]))
+__CPROVER_requires(ldb_readopt_default == &g_ro_default && g_ro_default.verify_checksums == 0 && g_ro_default.fill_cache == 1 && ldb_bytewise_comparator == &g_bytewise_obj)
+__CPROVER_requires(R.pr_calls == 0 && B.rb_calls == 0 && B.bc_calls == 0 && !B.bc_of[0] && !B.bc_of[1] && !B.bc_of[2] && R.bd_calls == 0 && R.id_calls == 0 && R.bn_calls == 0 &&
+                   R.eq_calls == 0 && R.eq_ret == 0 && R.fc_calls == 0 && !B.created[IT_META] && !B.created[IT_INDEX] && !B.created[IT_DATA] && !B.created[IT_EMPTY] &&
+                   R.seeks[IT_META] == 0 && !R.destroyed[IT_META] && R.clock == 0 && B.lk_calls == 0 && B.ins_calls == 0)
+__CPROVER_assigns(*table, R, B, __CPROVER_object_whole(g_blk))
+/* a file shorter than a footer is not a table: LDB_CORRUPTION without touching the file */
+__CPROVER_ensures(size < SPEC_FOOTER_SIZE ==> (__CPROVER_return_value == LDB_CORRUPTION && R.pr_calls == 0 && B.rb_calls == 0))
+/* the footer is the last 48 bytes of the file */
+__CPROVER_ensures(size >= SPEC_FOOTER_SIZE ==> (R.pr_calls == 1 && R.pr_count == SPEC_FOOTER_SIZE && R.pr_off == size - SPEC_FOOTER_SIZE))
+/* read error propagated; short read / wrong magic / malformed handles: LDB_CORRUPTION; nothing else is read */
+__CPROVER_ensures(R.pr_calls == 1 && R.pr_rc != LDB_OK ==> (__CPROVER_return_value == R.pr_rc && B.rb_calls == 0))
+__CPROVER_ensures(OP_PREAD_OK && !spec_footer_ok(IN.footer, R.pr_size) ==> (__CPROVER_return_value == LDB_CORRUPTION && B.rb_calls == 0))
+__CPROVER_ensures(OP_INDEX_READ ==> (OP_PREAD_OK && spec_footer_ok(IN.footer, R.pr_size)))
+__CPROVER_ensures(OP_PREAD_OK && B.rb_calls == 0 ==> __CPROVER_return_value == LDB_CORRUPTION)
+/* the index block is read at the footer's index handle, checksums verified iff paranoid_checks */
+__CPROVER_ensures(OP_INDEX_READ ==> (B.rb[0].off == spec_handle2_offset(IN.footer, R.pr_size) && B.rb[0].size == spec_handle2_size(IN.footer, R.pr_size) &&
+                                     B.rb[0].verify == OP_PARANOID && B.rb[0].fill == 1))
+/* index block unreadable: that status, no table, nothing else read or created */
+__CPROVER_ensures(OP_INDEX_READ && B.rb[0].rc != LDB_OK ==> (__CPROVER_return_value == B.rb[0].rc && B.rb_calls == 1 && B.bc_calls == 0 && R.id_calls == 0 && R.fc_calls == 0))
+/* every failure: no table object */
+__CPROVER_ensures(__CPROVER_return_value != LDB_OK ==> OP_T == NULL)
+__CPROVER_ensures((__CPROVER_return_value == LDB_OK) == OP_OPENED)
+/* success: the table owns the index block, remembers file / options / metaindex handle, and draws a fresh cache id iff there is a block cache */
+__CPROVER_ensures(OP_OPENED ==> (OP_T != NULL && OP_T->file == file && OP_T->index_block == &g_blk[0] && B.bc_of[0] && OP_T->status == LDB_OK &&
+                                 OP_T->options.comparator == options->comparator && OP_T->options.block_cache == options->block_cache &&
+                                 OP_T->options.filter_policy == options->filter_policy && OP_T->options.paranoid_checks == options->paranoid_checks &&
+                                 OP_T->options.block_size == options->block_size && OP_T->options.block_restart_interval == options->block_restart_interval))
+__CPROVER_ensures(OP_OPENED ==> (OP_T->metaindex_handle.offset == spec_handle_offset(IN.footer, R.pr_size) && OP_T->metaindex_handle.size == spec_handle_size(IN.footer, R.pr_size)))
+__CPROVER_ensures(OP_OPENED ==> (R.id_calls == (options->block_cache != NULL ? 1 : 0) && OP_T->cache_id == (options->block_cache != NULL ? IN.lru_id : 0)))
+/* meta data is wanted iff there is a filter policy (and its name fits): metaindex read at the footer's metaindex handle, verified iff paranoid */
+__CPROVER_ensures(OP_OPENED ==> (R.bn_calls == (options->filter_policy != NULL ? 1 : 0)))
+__CPROVER_ensures(OP_OPENED ==> (OP_META_READ == (options->filter_policy != NULL && IN.name_ok != 0)))
+__CPROVER_ensures(OP_META_READ ==> (OP_OPENED && B.rb[1].off == OP_T->metaindex_handle.offset && B.rb[1].size == OP_T->metaindex_handle.size &&
+                                    B.rb[1].verify == OP_PARANOID))
+/* the metaindex block is searched (bytewise order) for the key "filter." + policy name; iterator and block are released again, in that order */
+__CPROVER_ensures(OP_OPENED ==> (B.bc_calls == (OP_META_OK ? 2 : 1) && B.created[IT_META] == (OP_META_OK ? 1 : 0) && R.bd_calls == (OP_META_OK ? 1 : 0)))
+__CPROVER_ensures(OP_META_OK ==> (B.bc_of[1] && B.block[IT_META] == &g_blk[1] && B.cmp[IT_META] == &g_bytewise_obj && R.seeks[IT_META] == 1 &&
+                                  R.mseek_data == (const uint8_t *)R.bn_buf && R.mseek_n == IN.name_len &&
+                                  R.destroyed[IT_META] == 1 && R.bd_block == &g_blk[1] && R.t_destroy[IT_META] < R.t_bd))
+__CPROVER_ensures(OP_META_OK ==> R.eq_calls == (IN.valid[IT_META] != 0 ? 1 : 0))
+/* the filter block is read iff that exact key exists and its value is a well-formed handle; at that handle; verified iff paranoid */
+__CPROVER_ensures(OP_OPENED ==> (OP_FILTER_READ == (OP_FOUND && spec_handle_len(IN.vp[IT_META], IN.vn[IT_META]) != 0)))
+__CPROVER_ensures(OP_FILTER_READ ==> (B.rb[2].off == spec_handle_offset(IN.vp[IT_META], IN.vn[IT_META]) && B.rb[2].size == spec_handle_size(IN.vp[IT_META], IN.vn[IT_META]) &&
+                                      B.rb[2].verify == OP_PARANOID))
+/* the table has a filter iff the filter block was read successfully: built by the policy over exactly those bytes, which the table owns iff they are heap-allocated.
+   Any failure on the way (no entry, bad handle, unreadable block) leaves the table WITHOUT a filter - never an error, never a dangling filter */
+__CPROVER_ensures(OP_OPENED ==> (R.fc_calls == (OP_FILTER_OK ? 1 : 0) && OP_T->filter == (OP_FILTER_OK ? &g_filter_obj : (ldb_filter_t *)NULL)))
+__CPROVER_ensures(OP_OPENED && OP_FILTER_OK ==> (R.fc_policy == options->filter_policy && R.fc_data == IN.rb_data[2] && R.fc_n == IN.rb_n[2] &&
+                                                 OP_T->filter_data == (B.rb[2].heap ? IN.rb_data[2] : (const uint8_t *)NULL)))
+__CPROVER_ensures(OP_OPENED && !OP_FILTER_OK ==> OP_T->filter_data == NULL)
+/* the block cache is not touched by open (cache id apart) */
+__CPROVER_ensures(B.lk_calls == 0 && B.ins_calls == 0 && R.fm_calls == __CPROVER_old(R.fm_calls))
+;
+
+/* ================================================================ tbl.approx
+ * Table::ApproximateOffsetOf: offset of the block that would hold the key;
+ * metaindex offset (close to the file size) if past the end or undecodable.
+ */
+uint64_t c_table_approximate_offset(const ldb_table_t *table, const ldb_slice_t *key)
+__CPROVER_requires(table == IN.table && __CPROVER_r_ok(table, sizeof(*table)) && key == IN.key && table->index_block == &g_blk_index)
+__CPROVER_requires(__CPROVER_r_ok(IN.ixval, IN.ixval_n) && IN.vp[IT_INDEX] == IN.ixval && IN.vn[IT_INDEX] == IN.ixval_n)
+__CPROVER_requires(!B.created[IT_INDEX] && R.seeks[IT_INDEX] == 0 && !R.destroyed[IT_INDEX])
+__CPROVER_assigns(R, B)
+__CPROVER_ensures(B.created[IT_INDEX] == 1 && B.block[IT_INDEX] == table->index_block && B.cmp[IT_INDEX] == table->options.comparator &&
+                  R.seeks[IT_INDEX] == 1 && R.destroyed[IT_INDEX] == 1)
+__CPROVER_ensures(__CPROVER_return_value == ((IN.valid[IT_INDEX] != 0 && spec_handle_len(IN.ixval, IN.ixval_n) != 0)
+                                             ? spec_handle_offset(IN.ixval, IN.ixval_n) : table->metaindex_handle.offset))
+__CPROVER_ensures(B.rb_calls == __CPROVER_old(B.rb_calls) && B.lk_calls == __CPROVER_old(B.lk_calls) && !B.created[IT_DATA] == !__CPROVER_old(B.created[IT_DATA]))
 ;
 
 /* ------------------------------------------------------------- harnesses */
 static void init_records(void) {
   int i;
   for (i = 0; i < IT_N; i++) {
-    R.created[i] = 0; R.destroyed[i] = 0; R.seeks[i] = 0; R.block[i] = NULL; R.cmp[i] = NULL; R.t_destroy[i] = 0;
+    B.created[i] = 0; R.destroyed[i] = 0; R.seeks[i] = 0; B.block[i] = NULL; B.cmp[i] = NULL; R.t_destroy[i] = 0;
     GI[i].ptr = &g_tags[i]; GI[i].table = &gi_table; GI[i].cmp = &g_cmp_obj; GI[i].cleanup_head.func = NULL; GI[i].cleanup_head.next = NULL;
   }
-  R.empty_status = LDB_OK; R.clock = 0; R.t_saver = 0;
-  R.fm_calls = 0; R.fm_ret = 0; R.sv_calls = 0; R.rb_calls = 0; R.bc_calls = 0; R.bc_of[0] = R.bc_of[1] = R.bc_of[2] = 0; R.bd_calls = 0;
-  R.lk_calls = 0; R.lk_n = 0; R.ins_calls = 0; R.ins_n = 0; R.id_calls = 0; R.cl_calls = 0; R.cl_func = NULL; R.pr_calls = 0; R.pr_rc = 0; R.pr_size = 0; R.pr_data = NULL;
+  B.empty_status = LDB_OK; R.clock = 0; R.t_saver = 0;
+  R.fm_calls = 0; R.fm_ret = 0; R.sv_calls = 0; B.rb_calls = 0; B.bc_calls = 0; B.bc_of[0] = B.bc_of[1] = B.bc_of[2] = 0; R.bd_calls = 0;
+  B.lk_calls = 0; B.lk_n = 0; B.ins_calls = 0; B.ins_n = 0; R.id_calls = 0; B.cl_calls = 0; B.cl_func = NULL; R.pr_calls = 0; R.pr_rc = 0; R.pr_size = 0; R.pr_data = NULL;
   R.bn_calls = 0; R.eq_calls = 0; R.eq_ret = 0; R.fc_calls = 0; R.mseek_data = NULL; R.mseek_n = 0;
-  for (i = 0; i < 3; i++) { R.rb[i].rc = 0; R.rb[i].cachable = 0; R.rb[i].heap = 0; R.rb[i].verify = 0; R.rb[i].fill = 0; R.rb[i].off = 0; R.rb[i].size = 0; R.rb[i].opt = NULL; }
+  for (i = 0; i < 3; i++) { B.rb[i].rc = 0; B.rb[i].cachable = 0; B.rb[i].heap = 0; B.rb[i].verify = 0; B.rb[i].fill = 0; B.rb[i].off = 0; B.rb[i].size = 0; B.rb[i].opt = NULL; }
   g_ro_default.verify_checksums = 0; g_ro_default.fill_cache = 1; g_ro_default.snapshot = NULL;
   ldb_readopt_default = &g_ro_default;
   ldb_bytewise_comparator = &g_bytewise_obj;
@@ -460,5 +555,41 @@ void h_blockreader(void) {
   v.data = iv; v.size = in_ivn; v.alloc = 0;
   IN.lookup_hit = nondet_int(); IN.rb_data[0] = malloc(1); IN.rb_n[0] = nondet_size();
   ldb_table_blockreader(t, &ro, &v);
+  CANARY();
+}
+
+void h_open(void) {
+  ldb_dbopt_t opt; ldb_table_t *tbl; int rc;
+  IN_U64(in_size); IN_INT(in_paranoid); IN_INT(in_has_cache); IN_INT(in_has_policy); IN_SIZE(in_fvn);
+  IN_BUF(fv, in_fvn);                          /* value of the metaindex entry: the filter block's handle, arbitrary bytes */
+  init_records();
+  any_iter_inputs();
+  opt.comparator = &g_cmp_obj; opt.paranoid_checks = in_paranoid; opt.block_cache = in_has_cache ? &g_the_cache : NULL;
+  opt.filter_policy = in_has_policy ? &g_policy_obj : NULL;
+  opt.create_if_missing = nondet_int(); opt.error_if_exists = nondet_int(); opt.info_log = NULL; opt.write_buffer_size = nondet_size();
+  opt.max_open_files = nondet_int(); opt.block_size = nondet_size(); opt.block_restart_interval = nondet_int(); opt.max_file_size = nondet_size();
+  IN.footer = malloc(48); ASSUME(IN.footer != NULL);
+  IN.pread_mapped = nondet_int(); IN.lru_id = nondet_u64(); IN.name_ok = nondet_int() ? 1 : 0; IN.name_len = nondet_size();
+  IN.vp[IT_META] = fv; IN.vn[IT_META] = in_fvn;
+  IN.rb_data[0] = malloc(1); IN.rb_data[1] = malloc(1); IN.rb_data[2] = malloc(1);
+  ASSUME(IN.rb_data[0] != NULL && IN.rb_data[1] != NULL && IN.rb_data[2] != NULL);
+  IN.rb_n[0] = nondet_size(); IN.rb_n[1] = nondet_size(); IN.rb_n[2] = nondet_size();
+  tbl = (ldb_table_t *)&opt;                   /* garbage: open must overwrite it on every path */
+  rc = ldb_table_open(&opt, &g_the_rfile, in_size, &tbl);
+  if (rc == LDB_OK) free(tbl);
+  CANARY();
+}
+
+void h_approx(void) {
+  ldb_table_t *t; ldb_slice_t k; uint64_t r;
+  IN_SIZE(in_ivn); IN_BUF(iv, in_ivn); SNAP_BUF(iv, in_ivn);
+  init_records();
+  t = any_table();
+  t->metaindex_handle.offset = nondet_u64();
+  any_iter_inputs();
+  k.data = NULL; k.size = nondet_size(); k.alloc = 0;
+  IN.key = &k; IN.ixval = iv; IN.ixval_n = in_ivn; IN.vp[IT_INDEX] = iv; IN.vn[IT_INDEX] = in_ivn;
+  r = ldb_table_approximate_offset(t, &k);
+  (void)r;
   CANARY();
 }
